@@ -395,7 +395,8 @@ func runCheck(prop, tier string, writeLock bool) int {
 				// contradictory, or if this return was reachable on the unchanged tree (recorded in the lock file)
 				vacuity[o.Name] = "unreachable"
 				fnKey := o.Fn + "/cover/nret=" + strconv.Itoa(nRetOf[o.Fn])
-				if isPre || (lockedSet[o.Name] && lockedSet[fnKey]) {
+				isSite := strings.Contains(o.Name, "/cover/site ")
+				if isPre || (lockedSet[o.Name] && (lockedSet[fnKey] || isSite)) {
 					vacuity[o.Name] = "VACUOUS"
 					violate(o.Name, true, map[string]interface{}{"reason": "vacuity: hypotheses are contradictory here although this point was reachable on the unchanged tree; every obligation behind it would pass trivially", "clause": o.Clause})
 				}
@@ -488,6 +489,11 @@ func runCheck(prop, tier string, writeLock bool) int {
 		b, _ := json.MarshalIndent(locks, "", " ")
 		os.WriteFile(lockPath, b, 0o644)
 		fmt.Printf("lock: %d clause-level obligations recorded for %s\n", len(names), prop)
+		for k, v := range vacuity {
+			if v != "reachable" {
+				fmt.Printf("lock: REVIEW %s is %s (dead code under the contract, or a contradictory hypothesis?)\n", k, v)
+			}
+		}
 	} else if only == "" {
 		for _, n := range locks[prop] {
 			if strings.Contains(n, "/cover/") {
